@@ -52,7 +52,7 @@ def oracle_tie(ctx, rng, pid):
       ring's peak projection."""
     goals = []
     meta = []
-    nclosed = 10 if ctx.quick else 40
+    nclosed = 12 if ctx.quick else 40
     for i in range(nclosed):
         kind = i % 4
         if kind == 0:
@@ -62,7 +62,7 @@ def oracle_tie(ctx, rng, pid):
             t = 'Rabs (gauss_proj %s %s - %s) <= %s' % (_rq(s), _rq(x), _rq(v), _rq(2.0 ** -40 * max(abs(v), 1e-30)))
             tac = 'unfold gauss_proj. interval with (i_prec 90).'
         elif kind == 1:
-            p = int(rng.integers(2, 5))
+            p = 2 + (i // 4) % 3            # every p of the sweep in every run
             R = float(rng.choice([19.2, 40.0, 80.0, 160.0]))
             x = float(rng.integers(0, int(R)))
             v = float(pairs.Bump(R, p).proj(x))
